@@ -9,6 +9,7 @@ import (
 	"strings"
 
 	"github.com/antonmedv/expr"
+	"github.com/antonmedv/expr/vm"
 )
 
 // ---------------------------------------------------------------------------
@@ -49,7 +50,7 @@ func (c09Engine) Assumptions() []string {
 	}
 }
 func (c09Engine) Required(tier string) []string {
-	return []string{"hook_calls", "snapshots_compared", "compilations_repeated", "ops_on_used_vm", "crash_fired", "grid_crash_points", "budget_exceeded_on_fresh", "call_fault_fired", "processes_compared", "programs_with_map_constants"}
+	return []string{"hook_calls", "snapshots_compared", "compilations_repeated", "ops_on_used_vm", "crash_fired", "grid_crash_points", "budget_exceeded_on_fresh", "call_fault_fired", "processes_compared", "programs_with_map_constants", "held_programs_rechecked", "operator_overload_programs"}
 }
 func (c09Engine) Decode(raw []byte) (interface{}, error) {
 	var sc VMScenario
@@ -58,19 +59,29 @@ func (c09Engine) Decode(raw []byte) (interface{}, error) {
 }
 func (c09Engine) Gen(seed uint64, idx int, tier string) interface{} {
 	sc := genVMScenario(seed, idx, tier, true)
-	sc.ConstExpr = NewRNG(seed^0xC09).Chance(1, 3)
+	r := NewRNG(seed ^ 0xC09)
+	sc.ConstExpr = r.Chance(1, 3)
+	if r.Chance(1, 3) {
+		// an overloaded operator with two candidate functions that both accept the operands
+		sc.Operators = true
+		var t *N
+		switch r.Intn(3) {
+		case 0:
+			t = nBin("**", nID("O"), nID("O"))
+		case 1:
+			t = nBin("*", nBin("**", nID("O"), nProp(nID("O"), "Next", false)), nInt(2))
+		default:
+			t = nBi("map", nID("Objs"), nBin("**", nPtr(), nID("O")))
+		}
+		ps := ProgSpec{Kind: "overload", Tree: t, Optimize: r.Chance(3, 4)}
+		ps.Source = ps.Src()
+		sc.Progs[r.Intn(len(sc.Progs))] = ps
+	}
 	return sc
 }
 
 func c09Opts(sc *VMScenario, p ProgSpec, sample interface{}) []expr.Option {
-	opts := []expr.Option{expr.Env(sample)}
-	if !p.Optimize {
-		opts = append(opts, expr.Optimize(false))
-	}
-	if sc.ConstExpr {
-		opts = append(opts, expr.ConstExpr("CI"), expr.ConstExpr("CS"), expr.ConstExpr("CB"))
-	}
-	return opts
+	return vmOpts(sc, p, sample)
 }
 
 // progDigests compiles every program of the scenario once and returns the
@@ -78,7 +89,7 @@ func c09Opts(sc *VMScenario, p ProgSpec, sample interface{}) []expr.Option {
 func progDigests(sc *VMScenario) []string {
 	out := make([]string, len(sc.Progs))
 	for i, p := range sc.Progs {
-		src := Print(p.Tree, Layout{}).Src
+		src := p.Src()
 		w0 := NewWorld(false, nil, nil)
 		w0.Phase = "compile"
 		sample := BuildEnv(w0, sc.Envs[0]).AsRep(sc.Rep)
@@ -94,9 +105,15 @@ func progDigests(sc *VMScenario) []string {
 
 func (c09Engine) Run(sci interface{}, ctx *RunCtx) *Finding {
 	sc := sci.(*VMScenario)
-	// (c) same source, same program
+	// (c) same source, same program; and a program is not changed by later compilations
+	type heldProg struct {
+		prog *vm.Program
+		dump string
+		src  string
+	}
+	var held []heldProg
 	for i, p := range sc.Progs {
-		src := Print(p.Tree, Layout{}).Src
+		src := p.Src()
 		first, firstJ := "", ""
 		for rep := 0; rep < 16; rep++ {
 			w0 := NewWorld(false, nil, nil)
@@ -106,6 +123,9 @@ func (c09Engine) Run(sci interface{}, ctx *RunCtx) *Finding {
 			pr, co := sutCompile(src, c09Opts(sc, p, sample)...)
 			ctx.Eval()
 			ctx.Count("compilations_repeated", 1)
+			if rep == 0 && p.Kind == "overload" {
+				ctx.Count("operator_overload_programs", 1)
+			}
 			if co.Panicked {
 				return &Finding{Class: "C09/compile-panic", Detail: "Compile panicked: " + co.PanicVal + "\nsource: " + src}
 			}
@@ -125,6 +145,9 @@ func (c09Engine) Run(sci interface{}, ctx *RunCtx) *Finding {
 				}
 			}
 			j := strings.Join(journalStrings(w0.Journal), ";")
+			if rep == 0 && !co.Failed() {
+				held = append(held, heldProg{pr, dump, src})
+			}
 			if rep == 0 {
 				first, firstJ = dump, j
 				ctx.Logf("program %d %q optimize=%v constexpr=%v: dump %s compile-journal [%s]", i, src, p.Optimize, sc.ConstExpr, Digest(dump), j)
@@ -147,8 +170,23 @@ func (c09Engine) Run(sci interface{}, ctx *RunCtx) *Finding {
 			}
 		}
 	}
+	for _, h := range held {
+		ctx.Count("held_programs_rechecked", 1)
+		if now := Snapshot(h.prog); now != h.dump {
+			return &Finding{Class: "C09/program-modified-by-later-compile", Detail: fmt.Sprintf("a compiled program changed while OTHER sources were being compiled\nsource: %s\n when compiled: %s\n now:           %s", h.src, h.dump, now)}
+		}
+	}
 	// (a) and (b)
-	return runVMHistory(sc, ctx, "C09")
+	f := runVMHistory(sc, ctx, "C09")
+	if f != nil {
+		return f
+	}
+	for _, h := range held {
+		if now := Snapshot(h.prog); now != h.dump {
+			return &Finding{Class: "C09/program-modified-by-later-compile", Detail: fmt.Sprintf("a compiled program changed while other programs were being compiled and run\nsource: %s\n when compiled: %s\n now:           %s", h.src, h.dump, now)}
+		}
+	}
+	return nil
 }
 
 func (c09Engine) Shrinks(sci interface{}) []interface{} {
